@@ -80,6 +80,46 @@ EntailsNorm(a, c, fuel) ==
        /\ EntailsNorm(SatisfyConstraint(a, w, FALSE), SatisfyConstraint(c, w, FALSE), fuel - 1)
 EntailsAlg(A, C) == EntailsNorm(Norm(A), Norm(C), Cardinality(Atoms(A)) + 1)
 
+(***************************************************************************)
+(* at_age / at_lock_time: a lock the given age / time does not imply is    *)
+(* replaced by UNSATISFIABLE, then the whole policy is normalised.         *)
+(* minimum_n_keys: bottom-up; a key counts 1, any other leaf 0,            *)
+(* UNSATISFIABLE has no value; a threshold adds the k smallest values of   *)
+(* its members that have one (none if fewer than k do).  Keys are counted  *)
+(* per occurrence: the figure is the fewest signatures only when no key    *)
+(* occurs twice (MinKeysLemma; the known finding KF-C18-min-keys-          *)
+(* duplicates is exactly the other case).                                  *)
+(***************************************************************************)
+LockImplied(kind, n, v) == IF kind = "older" THEN RelImplied(n, v) ELSE AbsImplied(n, v)
+RECURSIVE DropLocks(_, _, _)
+DropLocks(P, kind, v) ==
+  IF P.p = "thresh" THEN [P EXCEPT !.xs = [q \in 1..Len(P.xs) |-> DropLocks(P.xs[q], kind, v)]]
+  ELSE IF P.p = kind /\ ~LockImplied(kind, P.n, v) THEN PUnsat
+  ELSE P
+AtAgeAlg(P, age) == Norm(DropLocks(P, "older", age))
+AtLockTimeAlg(P, t) == Norm(DropLocks(P, "after", t))
+
+RECURSIVE KSmallestSum(_, _)
+\* sum of the k smallest members of a bag given as a sequence
+KSmallestSum(vals, k) ==
+  IF k = 0 THEN 0
+  ELSE LET q == CHOOSE a \in 1..Len(vals) : \A c \in 1..Len(vals) : vals[a] <= vals[c]
+       IN vals[q] + KSmallestSum(SubSeq(vals, 1, q - 1) \o SubSeq(vals, q + 1, Len(vals)), k - 1)
+RECURSIVE MinKeysAlg(_)
+\* -1 encodes None
+MinKeysAlg(P) ==
+  IF P.p = "unsat" THEN -1
+  ELSE IF P.p = "key" THEN 1
+  ELSE IF P.p # "thresh" THEN 0
+  ELSE LET subs == [q \in 1..Len(P.xs) |-> MinKeysAlg(P.xs[q])]
+           have == SelectSeq(subs, LAMBDA v : v # -1)
+       IN IF Len(have) < P.n THEN -1 ELSE KSmallestSum(have, P.n)
+RECURSIVE KeyLeaves(_)
+RECURSIVE KeyLeavesSeq(_, _)
+KeyLeavesSeq(xs, q) == IF q > Len(xs) THEN <<>> ELSE KeyLeaves(xs[q]) \o KeyLeavesSeq(xs, q + 1)
+KeyLeaves(P) == IF P.p = "key" THEN <<P.n>> ELSE IF P.p # "thresh" THEN <<>> ELSE KeyLeavesSeq(P.xs, 1)
+NoRepeatedKey(P) == LET ks == KeyLeaves(P) IN \A a, c \in 1..Len(ks) : a # c => ks[a] # ks[c]
+
 \* normal form: no constant below the root
 RECURSIVE NoConstInside(_, _)
 NoConstInside(P, top) ==
